@@ -82,7 +82,7 @@ def spec_check(raw, ops, outs, final, path_text, text, pulled_after=None):
         elif o[0] == "lines":
             # every requested line that some pulled token touches must be the real line of the text
             if res[0] == "lines":
-                tl = text.splitlines(keepends=True)
+                tl = tm.nl_lines(text)
                 for n, l in zip(o[1], res[1]):
                     real = tl[n - 1] if 1 <= n <= len(tl) else None
                     if real is not None and l != real and not (l == "" and n == len(tl) + 1):
@@ -143,14 +143,14 @@ def run(chk: common.Check, tier: str):
                    f"{len(cases)} (stream, op sequence) cases (outputs, cursor, fetched, pulled, line table)",
                    not failing, json.dumps([descs[i] for i in failing[:3]], default=str))
     chk.assumptions += ["TokenInfo.line is the text of the physical line(s) the token spans (tokenize's contract)",
-                        "line separators other than \\n are outside the model (harness skips such streams)"]
+                        "a carriage return inside a line is outside the model (harness skips such streams)"]
 
 
 def _text_of(raw, kind):
     # reconstruct the text by lines from the tokens' line attributes (first occurrence per line number)
     by = {}
     for t in raw:
-        ls = t.line.splitlines(keepends=True) or [t.line]
+        ls = tm.nl_lines(t.line) or [t.line]
         for i, l in enumerate(ls):
             by.setdefault(t.start[0] + i, l)
     if not by:
